@@ -51,6 +51,17 @@ pub fn run(out: &mut Out, thorough: bool, seed: u64, _extra: &[String]) {
                 }
             }
         }
+        // sums and differences of every ordered pair of sizes 2..4 (first level and one level down): at most 2 bits below the smaller operand budget
+        if thorough || pi < 8 {
+            for (name, a, b, res, _want) in size_pair_cases(&s, &mut r) {
+                let (ba, bb, br) = (budget(&s, &a), budget(&s, &b), budget(&s, &res));
+                let v = coef_view(&s, &res);
+                out.case(&format!("budget {}", s.ct_case(&v)), &format!("pairs-{}", name), || br.to_string());
+                if a.correction_factor() != b.correction_factor() { out.raw(&format!("!NOTE pair_budget {} {}: different correction factors (balancing multiplies the operands; the law is stated for equal factors)", scheme_name(scheme), name)); }
+                else if br + 2 >= ba.min(bb) { out.raw(&format!("!OK pair_budget {} {} min={} res={} # pairs-{}", scheme_name(scheme), name, ba.min(bb), br, name)); }
+                else { out.raw(&format!("!FAIL pair_budget {} {} :: operand budgets {} / {} but the result has {} (more than ceil(log2 2)+1 = 2 bits lost) # pairs-{}", s.ct_case(&v), name, ba, bb, br, name)); }
+            }
+        }
         // k-fold sums of same-level, same-factor ciphertexts: min budget - ceil(log2 k) - 1
         for _ in 0..4 {
             let k = r.range(2, 9) as usize;
